@@ -121,7 +121,7 @@ func randomChooser(r *hx.Rng, stopPct int) dsx.Chooser {
 		case x < 58:
 			class = has("X")
 		case x < 76:
-			class = append(has("PT"), has("GT")...)
+			class = append(append(has("PT"), has("GT")...), has("PL")...)
 		case x < 82:
 			class = has("DR")
 		case x < 86:
@@ -488,6 +488,24 @@ func RunMany(c *hx.Ctx, prop string, n, par int, c10 bool) {
 			{"S", "W", "W", "X*:ConnectionFailed", "GT"}, {"S", "W", "R*:503:11", "W", "GT"},
 		}},
 	}
+	// late response during the back-off (proxy6): the attempt is given up for a retry (per-try timeout / upstream reset)
+	// with a response of it still in flight; the frame lands while doRetry sleeps. Then silence, another answer, a second
+	// late frame, the client's departure or the global timeout.
+	lateCfg := func() dsx.Cfg {
+		cfg := dsx.Cfg{Route: "c", RetryOn: true, N: rng.Pick([]int{1, 2, 3}), Data: rng.Chance(30), Trailers: rng.Chance(15), TryTimeout: true}
+		if c10 {
+			cfg.MR = rng.Pick([]int{0, 1, 2})
+			cfg.MQ = rng.Pick([]int{0, 1, 2})
+			cfg.AR = rng.Intn(2)
+		}
+		return cfg
+	}
+	fams = append(fams, fam{"late", lateCfg, [][]string{
+		{"S", "PL0:10"}, {"S", "PL0:01", "R*:200:00"}, {"S", "XL0:ConnectionFailed:10"}, {"S", "XL0:ConnectionFailed:10", "R*:200:10"},
+		{"S", "XL0:ConnectionTermination:00", "X*:ConnectionFailed"}, {"S", "PL0:10", "PT"}, {"S", "XL0:ConnectionFailed:10", "XL1:ConnectionFailed:10"},
+		{"S", "PL0:10", "DR"}, {"S", "XL0:ConnectionFailed:10", "GT"}, {"S", "HG", "XL0:ConnectionFailed:10"}, {"S", "PFo", "PL0:10"},
+		{"S", "R*:503:10", "XL1:ConnectionFailed:10"},
+	}})
 	for _, fm := range fams {
 		for _, sc := range fm.scripts {
 			reps := 1
@@ -531,5 +549,10 @@ func ModelCheck(c *hx.Ctx, prop string) {
 
 func Run(c *hx.Ctx) {
 	ModelCheck(c, "C03")
+	if len(c.Args) > 0 && c.Args[0] == "upfonly" { // development aid
+		RunUpf(c, "C03")
+		return
+	}
 	RunMany(c, "C03", c.N(700, 2500), 8, false)
+	RunUpf(c, "C03")
 }
